@@ -131,6 +131,9 @@ TWIN_SDL = """
 SDLS.append(TWIN_SDL)
 SDLS.append(TWIN_SDL)
 ROOTS = {4: ("RootQuery", "Events")}
+# leaf types of the same name and other implementation per bundle at WRAPPED output positions with the same textual
+# signature in every bundle (seed C17-h: anything derived from "[Tag!]!" must be the bundle's own)
+SDLS = [x.replace("{ pet: Pet pets: [Pet]", "{ tags: [Tag!]! tagm: [[Tag]!] kinds: [Kind!] kindn: Kind! pet: Pet pets: [Pet]") for x in SDLS]
 
 REQUESTS = [
     "{ pet { __typename ... on Cat { name meow } ... on Dog { name bark } } }",
@@ -150,6 +153,7 @@ REQUESTS = [
     ("query W($t: Tag = \"dflt\") { echo(t: $t) lit: echo(t: \"l\") }", {}),
     ("query I($b: Box) { open(box: $b) }", {"b": {"label": "y"}}),
     ("query J($b: Box = {label: \"z\"}) { open(box: $b) o2: open(box: {label: \"w\", n: 1}) }", {}),
+    "{ tags tagm kinds kindn }",
 ]
 
 
@@ -177,6 +181,22 @@ def register(i):
     @Resolver(QN + ".tag", schema_name=sn)
     async def tag(p, a, c, info):
         return "t"
+
+    @Resolver(QN + ".tags", schema_name=sn)
+    async def tags(p, a, c, info):
+        return ["a", "b"]
+
+    @Resolver(QN + ".tagm", schema_name=sn)
+    async def tagm(p, a, c, info):
+        return [["m", None], []]
+
+    @Resolver(QN + ".kinds", schema_name=sn)
+    async def kinds(p, a, c, info):
+        return ["B", "A"] if i in (0, 2, 4) else ["B", "C"]
+
+    @Resolver(QN + ".kindn", schema_name=sn)
+    async def kindn(p, a, c, info):
+        return "A" if i in (0, 2, 4) else "C"
 
     @Resolver(QN + ".hello", schema_name=sn)
     async def hello(p, a, c, info):
